@@ -10,6 +10,14 @@ export GOFLAGS=-mod=mod GOPROXY=off GOSUMDB=off GOTOOLCHAIN=local CARGO_NET_OFFL
 mkdir -p build/ocaml
 what=${1:-all}
 
+if [ "$what" = all ] || [ "$what" = harness ] || [ "$what" = coq ]; then
+  # the harness first: it contains factgen, which regenerates coq/LockFacts.v from /repo
+  cd "$ROOT/harness"
+  cp /repo/go.sum go.sum
+  timeout 900 go build -tags verif -o "$ROOT/build/harness" . || { echo "HARNESS BUILD FAILED"; exit 1; }
+  "$ROOT/build/harness" factgen -repo /repo -out "$ROOT/coq/LockFacts.v" || { echo "FACTGEN FAILED"; exit 1; }
+fi
+
 if [ "$what" = all ] || [ "$what" = coq ]; then
   cd "$ROOT/coq"
   if [ ! -f Makefile ] || [ _CoqProject -nt Makefile ]; then coq_makefile -f _CoqProject -o Makefile >/dev/null; fi
@@ -36,9 +44,10 @@ if [ "$what" = all ] || [ "$what" = model ] || [ "$what" = coq ]; then
   fi
 fi
 
-if [ "$what" = all ] || [ "$what" = harness ]; then
+if [ "$what" = race ]; then
+  # the harness (and with it the emulator from /repo) built with the Go race detector, for C16
   cd "$ROOT/harness"
   cp /repo/go.sum go.sum
-  timeout 900 go build -tags verif -o "$ROOT/build/harness" .
+  timeout 1500 go build -race -tags verif -o "$ROOT/build/harness_race" . || { echo "RACE BUILD FAILED"; exit 1; }
 fi
 echo BUILD-OK
